@@ -1,5 +1,6 @@
 import PyYetiVerif.Lemmas.NasFloat
 import PyYetiVerif.Lemmas.NasFloatRat
+import PyYetiVerif.Lemmas.NasFloatLast
 import PyYetiVerif.Lemmas.NasCards
 import PyYetiVerif.Lemmas.NasCardsTrip
 import PyYetiVerif.Lemmas.NasCardsLarge
@@ -218,6 +219,114 @@ example : ∃ x y : Dbl, 0 < x.num ∧ 0 < x.den ∧ x.den ≤ 10 ^ 999 * x.num 
     by decide +kernel, by decide, by decide +kernel, by decide +kernel, by decide +kernel, rfl,
     (sci_width _ (by decide) (Or.inr ⟨by decide +kernel, by decide +kernel⟩)).1,
     (sci_width _ (by decide +kernel) (Or.inr ⟨by decide +kernel, by decide +kernel⟩)).2.2⟩
+
+/-! ## the small-magnitude mixed branches and the final integer branches -/
+
+/-- **Small-magnitude mixed branch, positive chain** (`value < 0.001`: scientific field, or
+`.000ddd` when that is as wide at most and reads back as the same double).  For every positive
+fraction in `10^-999 ≤ x < 10^999` (and, where the 8-wide formatter's final `strip(" 0")` applies,
+`10^-9 ≤ x < 10^-1`: the exponent is one non-zero digit) the branch returns exactly `W`
+characters, a well-formed field that `nas_sscanf` reads back as the real nearest to its decimal;
+the field is either the scientific field of `sci_width_accuracy` (same bound) or the fixed field
+of precision `p` (within `½·10^-p` of `x`). -/
+theorem small_branch_pos (W p : Nat) (c : Sci) (hc : SciOK W c 0) (hp : 1 ≤ p) (x : Dbl)
+    (hneg : x.neg = false) (hn : 0 < x.num) (hd : 0 < x.den)
+    (hlo : x.den ≤ 10 ^ 999 * x.num) (hhi : x.num < 10 ^ 999 * x.den)
+    (h8 : W = 8 → x.den ≤ 10 ^ 9 * x.num ∧ x.num * 10 ^ 1 < x.den) (k : Bool) :
+    (smallPos W p c x).length = W ∧
+    ∃ f : Fld, f.wf = true ∧ smallPos W p c x = rjust W f.text ∧
+      nasSscanf (smallPos W p c x) k = .flt (toBits f.dec.1 f.dec.2.1 f.dec.2.2) ∧
+      (sciCore W c [] x = rjust W f.text ∨
+        (f = fixedFld false true p (rheDiv (x.num * 10 ^ p) x.den) ∧
+          |decRat f.dec - dblRat x| ≤ 1 / 2 * (10 : ℚ) ^ (-(p : Int)))) := by
+  obtain ⟨f, hwf, hlen, hshape, hcase⟩ := smallPos_good W p c hc hp x hneg hn hd hlo hhi h8
+  refine ⟨by rw [hshape]; exact rjust_length_of_le _ _ hlen, f, hwf, hshape, ?_, ?_⟩
+  · rw [hshape, rjust]; exact nasSscanf_field f hwf _ k
+  · rcases hcase with h | h
+    · exact Or.inl h
+    · exact Or.inr ⟨h, by rw [h]; exact fixed_rat_err false true p x hd hneg⟩
+
+/-- **Small-magnitude mixed branch, negative chain** (`value > -0.01`).  [partial: under `hN`,
+`|x| ≥ 10^-p` — the values that do not round to zero at the branch's precision; for the one double
+between the literal `5e-7` / `5e-15` and its nearest double below, the code relies on
+`float(field1) == float("-0.")` being false, which is tied by the correspondence only.] -/
+theorem small_branch_neg_partial (W p : Nat) (c : Sci) (hc : SciOK W c 0) (hp : 1 ≤ p) (x : Dbl)
+    (hneg : x.neg = true) (hn : 0 < x.num) (hd : 0 < x.den)
+    (hlo : x.den ≤ 10 ^ 999 * x.num) (hhi : x.num < 10 ^ 999 * x.den)
+    (hN : x.den ≤ x.num * 10 ^ p)
+    (h8 : W = 8 → x.den ≤ 10 ^ 9 * x.num ∧ x.num * 10 ^ 1 < x.den) (k : Bool) :
+    (smallNeg W p c x).length = W ∧
+    ∃ f : Fld, f.wf = true ∧ smallNeg W p c x = rjust W f.text ∧
+      nasSscanf (smallNeg W p c x) k = .flt (toBits f.dec.1 f.dec.2.1 f.dec.2.2) ∧
+      (sciCore W c [] x = rjust W f.text ∨
+        (f = fixedFld true true p (rheDiv (x.num * 10 ^ p) x.den) ∧
+          |decRat f.dec - dblRat x| ≤ 1 / 2 * (10 : ℚ) ^ (-(p : Int)))) := by
+  obtain ⟨f, hwf, hlen, hshape, hcase⟩ := smallNeg_good_partial W p c hc hp x hneg hn hd hlo hhi hN h8
+  refine ⟨by rw [hshape]; exact rjust_length_of_le _ _ hlen, f, hwf, hshape, ?_, ?_⟩
+  · rw [hshape, rjust]; exact nasSscanf_field f hwf _ k
+  · rcases hcase with h | h
+    · exact Or.inl h
+    · exact Or.inr ⟨h, by rw [h]; exact fixed_rat_err true true p x hd hneg⟩
+
+/-- **Final branches** (`dddddddd.` and `-ddddddd.`): below the carry guard (`x < 10^(W-1) − ½`,
+resp. `|x| < 10^(W-2) − ½`: `table_rows_ok` shows the guards of the tables are these) the branch
+returns exactly `W` characters, the rounded integer with a decimal point — a well-formed field
+read back as a real, within half a unit of `x`. -/
+theorem last_branches (W : Nat) (c : Sci) (hW : 3 ≤ W) (x : Dbl) (hd : 0 < x.den) (k : Bool) :
+    (x.neg = false → 2 * x.num < (2 * 10 ^ (W - 1) - 1) * x.den →
+      (lastPos W c (1, 1) x).length = W ∧
+      ∃ f : Fld, f.wf = true ∧ lastPos W c (1, 1) x = rjust W f.text ∧
+        nasSscanf (lastPos W c (1, 1) x) k = .flt (toBits f.dec.1 f.dec.2.1 f.dec.2.2) ∧
+        |decRat f.dec - dblRat x| ≤ 1 / 2) ∧
+    (x.neg = true → 2 * x.num < (2 * 10 ^ (W - 2) - 1) * x.den →
+      (lastNeg W c (1, W - 1) x).length = W ∧
+      ∃ f : Fld, f.wf = true ∧ lastNeg W c (1, W - 1) x = rjust W f.text ∧
+        nasSscanf (lastNeg W c (1, W - 1) x) k = .flt (toBits f.dec.1 f.dec.2.1 f.dec.2.2) ∧
+        |decRat f.dec - dblRat x| ≤ 1 / 2) := by
+  constructor
+  · intro hneg hg
+    obtain ⟨fp, hfp, hshape, hlen⟩ := lastPos_shape W c (by omega) x hneg hd hg
+    have hwf := intFld_wf false (rheDiv x.num x.den) fp hfp
+    refine ⟨by rw [hshape]; exact rjust_length_of_le _ _ hlen, _, hwf, hshape, ?_,
+      int_rat_err false x hd hneg fp hfp⟩
+    rw [hshape, rjust]; exact nasSscanf_field _ hwf _ k
+  · intro hneg hg
+    obtain ⟨hshape, hlen⟩ := lastNeg_shape W c hW x hneg hd hg
+    have hrabs : (roundInt x).natAbs = rheDiv x.num x.den := by
+      unfold roundInt; simp [hneg]
+    have hwf := intFld_wf (decide (roundInt x < 0)) (roundInt x).natAbs [] (Or.inl rfl)
+    refine ⟨by rw [hshape]; exact rjust_length_of_le _ _ hlen, _, hwf, hshape, ?_, ?_⟩
+    · rw [hshape, rjust]; exact nasSscanf_field _ hwf _ k
+    · -- the sign written is that of the rounded integer: `-0` is written `0.`
+      rw [hrabs]
+      by_cases hr0 : rheDiv x.num x.den = 0
+      · have hz : roundInt x = 0 := by unfold roundInt; simp [hneg, hr0]
+        have hr := rheDiv_rat x.num x.den hd
+        rw [hr0] at hr ⊢
+        rw [intFld_rat _ 0 [] (Or.inl rfl)]
+        unfold dblRat
+        rw [hneg]
+        simp only [Nat.cast_zero, mul_zero, if_true, zero_sub] at hr ⊢
+        rw [abs_neg] at hr ⊢
+        simpa using hr
+      · have hlt : roundInt x < 0 := by
+          unfold roundInt; simp [hneg]; omega
+        have : decide (roundInt x < 0) = true := by simpa using hlt
+        rw [this]
+        exact int_rat_err true x hd hneg [] (Or.inl rfl)
+
+/-- non-vacuity: `x = 0.0005` in the 8-wide mixed branch (precision 7), `x = -0.0005` in the
+negative one (precision 6), `x = 1234567.4` and `x = -123456.4` in the final branches. -/
+example : (∃ x : Dbl, x.neg = false ∧ 0 < x.num ∧ 0 < x.den ∧ x.den ≤ 10 ^ 999 * x.num ∧
+      x.num < 10 ^ 999 * x.den ∧ x.den ≤ 10 ^ 9 * x.num ∧ x.num * 10 ^ 1 < x.den) ∧
+    (∃ x : Dbl, x.neg = true ∧ 0 < x.num ∧ x.den ≤ x.num * 10 ^ 6 ∧ x.num * 10 ^ 1 < x.den) ∧
+    (∃ x : Dbl, x.neg = false ∧ 0 < x.den ∧ 2 * x.num < (2 * 10 ^ (8 - 1) - 1) * x.den) ∧
+    (∃ x : Dbl, x.neg = true ∧ 0 < x.den ∧ 2 * x.num < (2 * 10 ^ (8 - 2) - 1) * x.den) :=
+  ⟨⟨⟨false, 5, 10000⟩, rfl, by decide, by decide, by decide +kernel, by decide +kernel, by decide,
+     by decide⟩,
+   ⟨⟨true, 5, 10000⟩, rfl, by decide, by decide, by decide⟩,
+   ⟨⟨false, 12345674, 10⟩, rfl, by decide, by decide⟩,
+   ⟨⟨true, 1234564, 10⟩, rfl, by decide, by decide⟩⟩
 
 /-- Below the carry guard `M − ½` (`M = 10^(W-2)`) the integer written by the final negative
 branch, `int(round(x, 0))`, stays below `M`: it has at most `W − 2` digits, so `-ddddddd.` fits. -/
